@@ -454,8 +454,11 @@ func collectAll14(x *gnode, path []string, out *[]seqAt) {
 
 func genAPICase14(g *Rng) case14 {
 	root := genDocAPI14(g)
+	if g.Chance(50) {
+		root = genNode14(g, 3, true) // lists without inserted null / empty-mapping elements
+	}
 	for try := 0; try < 6 && !hasSeq14(root); try++ {
-		root = genDocAPI14(g)
+		root = genNode14(g, 3, true)
 	}
 	if g.Chance(30) { // k8s-looking top level
 		meta := &gnode{kind: 1}
@@ -521,7 +524,7 @@ func genAPICase14(g *Rng) case14 {
 		s := pickSeq()
 		k, v := kvOf(s)
 		a.Keys, a.Values = []string{k}, []string{v}
-		switch g.Intn(10) {
+		switch g.Intn(14) {
 		case 0: // two keys
 			k2, v2 := kvOf(s)
 			a.Keys, a.Values = append(a.Keys, k2), append(a.Values, v2)
